@@ -8,6 +8,7 @@ import (
 	"fmt"
 	"math"
 	"sort"
+	"strconv"
 	"strings"
 	"time"
 
@@ -333,7 +334,15 @@ func (m *Machine) newEdgePts(t *rapid.T, typ string) data.Points {
 	if rapid.IntRange(0, 3).Draw(t, "extraEdgePoint") == 0 {
 		pts = append(pts, data.Point{Type: "role", Text: "x", Time: time.Unix(0, m.tick())})
 	}
-	if rapid.IntRange(0, 4).Draw(t, "noTombstonePoint") == 0 {
+	if rapid.IntRange(0, 7).Draw(t, "bornDeleted") == 0 {
+		// an edge whose very first batch says "deleted"
+		for i := range pts {
+			if pts[i].Type == data.PointTypeTombstone {
+				pts[i].Value = 1
+			}
+		}
+		m.Flags["edgeBornDeleted"] = true
+	} else if rapid.IntRange(0, 4).Draw(t, "noTombstonePoint") == 0 {
 		// an edge created by its node type alone is live: it holds no tombstone point at all
 		var out data.Points
 		for _, p := range pts {
@@ -523,6 +532,118 @@ func (m *Machine) Actions(check func(t *rapid.T)) map[string]func(*rapid.T) {
 			npts := m.genPoints(t, parent, false)
 			deepest := parent
 			m.write(t, deepest, "", npts, true, func() { m.applyNode(deepest, npts) })
+		},
+		"sameTime": func(t *rapid.T) {
+			// a write that carries the time of the stored point of its identity but
+			// other content (two writers stamping the same instant). Which of the two
+			// the store keeps is not C03's business: the model takes over what is
+			// read back, and the hashes have to match that.
+			type cand struct {
+				id, parent string
+				p          fix.P
+			}
+			var cands []cand
+			for _, k := range m.G.Order {
+				e := m.G.Edges[k]
+				for _, p := range e.Points {
+					if p.Type != data.PointTypeTombstone && p.Type != "zt0" && p.Type != "zt1" && p.TimeNs != 0 {
+						cands = append(cands, cand{e.ID, e.Parent, p})
+					}
+				}
+			}
+			for _, id := range m.placed() {
+				for _, p := range m.G.NodePoints(id) {
+					if p.Type != "zt0" && p.Type != "zt1" && p.TimeNs != 0 {
+						cands = append(cands, cand{id, "", p})
+					}
+				}
+			}
+			if len(cands) == 0 {
+				t.Skip("no stored point")
+			}
+			sort.Slice(cands, func(i, j int) bool {
+				a, b := cands[i], cands[j]
+				return a.id+"|"+a.parent+"|"+a.p.Type+"|"+a.p.Key < b.id+"|"+b.parent+"|"+b.p.Type+"|"+b.p.Key
+			})
+			c := cands[rapid.IntRange(0, len(cands)-1).Draw(t, "stored")]
+			np := data.Point{Type: c.p.Type, Key: c.p.Key, Time: time.Unix(0, c.p.TimeNs), Value: c.p.Value + 1, Text: c.p.Text + "'", Tombstone: c.p.Tombstone, Origin: "same-time"}
+			if math.IsInf(np.Value, 0) || np.Value == c.p.Value {
+				np.Value = 7
+			}
+			m.logf("same time, other content on %s %s: %s", c.id, c.parent, desc(data.Points{np}))
+			m.Flags["sameTimeOtherContent"] = true
+			id := model.IdentOf(np.Type, np.Key)
+			m.write(t, c.id, c.parent, data.Points{np}, true, func() {
+				if c.parent == "" {
+					m.G.NodePoints(c.id)[id] = fix.FromPoint(np)
+				} else {
+					m.G.Edge(c.parent, c.id).Points[id] = fix.FromPoint(np)
+				}
+			})
+			// with two contents at one instant a later re-delivery of either batch
+			// decides again: keep those out of the re-delivery pool
+			subj := "p." + c.id
+			if c.parent != "" {
+				subj += "." + c.parent
+			}
+			kept := m.sent[:0]
+			for _, b := range m.sent {
+				touches := false
+				if b.subject == subj {
+					for _, bp := range b.pts {
+						if model.IdentOf(bp.Type, bp.Key) == id {
+							touches = true
+						}
+					}
+				}
+				if !touches {
+					kept = append(kept, b)
+				}
+			}
+			m.sent = kept
+			rp := c.parent
+			if rp == "" {
+				rp = "all"
+			}
+			ns, err := m.In.Get(rp, c.id, true)
+			if err != nil || len(ns) == 0 {
+				t.Fatalf("read of %s %s: %v %v", c.id, c.parent, ns, err)
+			}
+			pts := ns[0].Points
+			if c.parent != "" {
+				pts = ns[0].EdgePoints
+			}
+			for _, p := range pts {
+				if model.IdentOf(p.Type, p.Key) != id {
+					continue
+				}
+				got := fix.FromPoint(p)
+				got.Key = id.Key
+				old := c.p
+				if got.ValueBits == old.ValueBits && got.Text == old.Text {
+					// the store kept the earlier content
+					if c.parent == "" {
+						m.G.NodePoints(c.id)[id] = old
+					} else {
+						m.G.Edge(c.parent, c.id).Points[id] = old
+					}
+				}
+			}
+		},
+		"bigBatch": func(t *rapid.T) {
+			// an array-like configuration: hundreds of points in one batch
+			if m.Flags["bigBatch"] || rapid.IntRange(0, 2).Draw(t, "bigNow") != 0 {
+				t.Skip("no big batch now")
+			}
+			m.Flags["bigBatch"] = true
+			id := rapid.SampledFrom(m.placed()).Draw(t, "node")
+			n := rapid.SampledFrom([]int{129, 200, 257, 300}).Draw(t, "bigN")
+			var pts data.Points
+			for i := 0; i < n; i++ {
+				pts = append(pts, data.Point{Type: "arr", Key: strconv.Itoa(i), Value: float64(i), Time: time.Unix(0, m.tick()), Origin: "big"})
+			}
+			m.logf("batch of %d points on %s", n, id)
+			m.write(t, id, "", pts, true, func() { m.applyNode(id, pts) })
 		},
 		"attachAbove": func(t *rapid.T) {
 			dp := m.detachedParents()
@@ -764,7 +885,11 @@ func (m *Machine) refusal(t *rapid.T) {
 			m.Flags["cycleThroughDeleted"] = true
 		}
 		m.Flags["cycle"] = true
-		m.write(t, c[0], c[1], newEdge(m.typeOf(c[0])), false, nil)
+		ce := newEdge(m.typeOf(c[0]))
+		if rapid.IntRange(0, 3).Draw(t, "cycleEdgeBornDeleted") == 0 {
+			ce[0].Value = 1 // a cycle is a cycle, also when the closing edge arrives deleted
+		}
+		m.write(t, c[0], c[1], ce, false, nil)
 	case "deleteRoot":
 		// key "" and key "0" are the same identity
 		// any value that reads as "deleted" (not an exact even number)
@@ -808,6 +933,12 @@ func (m *Machine) refusal(t *rapid.T) {
 			nan = math.Float64frombits(0x7ff8000000000001 | uint64(rapid.IntRange(0, 1).Draw(t, "nanSign"))<<63)
 		}
 		pts[pos].Value = nan
+		if rapid.Bool().Draw(t, "nanStale") {
+			// older than what is stored for that identity (or simply very old): a NaN
+			// is refused whether or not the point would have been kept
+			pts[pos].Time = time.Unix(0, rapid.Int64Range(1, 1000).Draw(t, "nanOldTime"))
+			m.Flags["nanInStalePoint"] = true
+		}
 		if len(pts) > 1 && pos > 0 && pos < len(pts)-1 {
 			m.Flags["nanInMiddle"] = true
 		}
